@@ -30,7 +30,7 @@ type c13X struct {
 	Final         []c13Expect // expected final replies (nil if no final response is due)
 	Expect        []string    // expected codes/classes of all replies after the RCPTs up to (excluding) the finals, e.g. "354", "250", "E" (error, single)
 	After         []string    // expected after the finals
-	Prelude       int         // an earlier transaction on the same connection, with other recipients: 0 none, 1 RSET after the recipients, 2 first BDAT refused for its size, 3 BDAT with a bad LAST token then RSET, 4 completed with DATA, 5 completed with BDAT LAST
+	Prelude       int         // an earlier transaction on the same connection, with other recipients: 0 none, 1 RSET after the recipients, 2 first BDAT refused for its size, 3 BDAT with a bad LAST token then RSET, 4 completed with DATA, 5 completed with BDAT LAST, 6 a chunk then RSET with the aborted delivery panicking late
 	Stall         bool        // DATA: the client falls silent inside the message until ReadTimeout strikes; it keeps listening
 	Pre           int
 }
@@ -255,7 +255,7 @@ func genC13(t *Tape, tier string) *Scenario {
 	x.Pre = 2
 	// an earlier transaction on the same connection whose recipient list differs:
 	// nothing of it may show in the statuses of the one that is judged
-	x.Prelude = t.Named("c13prelude", 6)
+	x.Prelude = t.Named("c13prelude", 7)
 	if x.Prelude > 0 {
 		steps = append(steps, Step{Kind: kMail, Data: line("MAIL FROM:<ok-early@a.example>"), Wait: 1})
 		x.Pre++
@@ -288,6 +288,14 @@ func genC13(t *Tape, tier string) *Scenario {
 				Step{Kind: kPayload, Data: []byte("early message\r\n"), Wait: -1})
 			x.Pre += k
 			sc.BE.Conns[0].Data = append([]DataPlan{{}}, sc.BE.Conns[0].Data...)
+		case 6:
+			// a chunk, then RSET: the aborted delivery returns late - inside the transaction that
+			// is judged - and panics on its way out; that is the old transaction's business alone
+			steps = append(steps, Step{Kind: kBdat, Data: []byte("BDAT 10\r\n"), Glue: true},
+				Step{Kind: kPayload, Data: []byte("abandoned\n"), Wait: 1},
+				Step{Kind: kRset, Data: []byte("RSET\r\n"), Wait: 1})
+			x.Pre += 2
+			sc.BE.Conns[0].Data = append([]DataPlan{{V: Verdict{Kind: vPanic, Msg: "in a delivery that was aborted"}, PanicWhen: 2, ParkAfter: Dur(t.Intn(10)) * 300 * time.Microsecond}}, sc.BE.Conns[0].Data...)
 		}
 	}
 	steps = append(steps, Step{Kind: kMail, Data: line("MAIL FROM:<ok-s@a.example>"), Wait: 1})
@@ -577,7 +585,7 @@ func classifyC13(sc *Scenario, h *History, st *Stats) string {
 		st.Faults["read_timeout_inside_LMTP_DATA_peer_keeps_listening"]++
 	}
 	if x.Prelude > 0 {
-		st.Probes["earlier_transaction_"+[]string{"", "ended_by_RSET", "BDAT_refused_for_size", "BDAT_malformed_then_RSET", "completed_with_DATA", "completed_with_BDAT"}[x.Prelude]]++
+		st.Probes["earlier_transaction_"+[]string{"", "ended_by_RSET", "BDAT_refused_for_size", "BDAT_malformed_then_RSET", "completed_with_DATA", "completed_with_BDAT", "aborted_delivery_panics_late"}[x.Prelude]]++
 	}
 	if x.EarlyFail >= 0 {
 		st.Probes["backend_fails_early"]++
@@ -616,7 +624,7 @@ func init() {
 				for f := 0; f < 2; f++ {
 					for b := 0; b < 2; b++ {
 						for m := 0; m < 4; m++ {
-							out = append(out, map[string]int{"c13flavor": f, "c13bdat": b, "c13mode": m, "c13prelude": r % 6})
+							out = append(out, map[string]int{"c13flavor": f, "c13bdat": b, "c13mode": m, "c13prelude": r % 7})
 						}
 					}
 				}
@@ -626,7 +634,7 @@ func init() {
 		Real:        []string{"smtp.Server.Serve/handleConn", "smtp.Conn handleDataLMTP, handleBdat (LMTP), statusCollector, delivery goroutines, panic recovery", "io.Pipe", "net/textproto", "bufio"},
 		Stub:        []string{"net.Listener (SimListener)", "net.Conn (SimConn)", "Backend/LMTPSession/StatusCollector caller (SimBackend)", "clock (synctest)", "LMTP client (raw driver)"},
 		Assumptions: []string{"statuses a backend set explicitly before it panicked are honoured; the others must not be 2xx", "out-of-contract backends are judged only for no deadlock / no crash"},
-		Required:    []string{"backend_fails_early_during_LAST_chunk", "backend_returns_nil_early", "backend_panic_logged_to_slow_sink", "duplicate_recipient", "out_of_contract_backend", "rejected_rcpt_interleaved", "backend_panic", "earlier_transaction_BDAT_refused_for_size", "earlier_transaction_BDAT_malformed_then_RSET", "earlier_transaction_completed_with_BDAT", "read_timeout_inside_LMTP_DATA_peer_keeps_listening"},
+		Required:    []string{"backend_fails_early_during_LAST_chunk", "backend_returns_nil_early", "backend_panic_logged_to_slow_sink", "duplicate_recipient", "out_of_contract_backend", "rejected_rcpt_interleaved", "backend_panic", "earlier_transaction_BDAT_refused_for_size", "earlier_transaction_BDAT_malformed_then_RSET", "earlier_transaction_completed_with_BDAT", "read_timeout_inside_LMTP_DATA_peer_keeps_listening", "earlier_transaction_aborted_delivery_panics_late"},
 		QuickRuns:   200000, ThoroughRuns: 4000000,
 	})
 }
